@@ -130,7 +130,9 @@ CLAIMED = {
         text="Bounded model checking of the inductive recycling step: from the state class R(C) (one empty BytesMut that is the sole owner of an "
              "allocation of C bytes, either form, any front offset) a full round reserve(n <= C) / fill / consume by split_to, split+freeze or advance / "
              "drop of the parts performs no byte-buffer allocation (counting allocator stubs) and ends in R(C) on the same allocation; a fresh buffer "
-             "forced by a shared neighbour is sized by max(needed, original capacity class) for a symbolic class 1..=7.",
+             "forced by a shared neighbour is sized by max(needed, original capacity class) for a symbolic class 1..=7. "
+             "Round trips through Bytes and back (freeze of every BytesMut form; Bytes -> BytesMut from arbitrary shared / promoted / never-cloned / frozen states): "
+             "the unique conversion keeps the allocation, and with the memory-leak check no control block or buffer survives the handles.",
         note=COMMON_NOTE + "C = 8; retention windows > 0 and the literal 10^3..10^6-round histories are replaced by the induction (paper step).",
         technique="Kani/CBMC inductive round with allocator-event ledger stubs (SAT)", design="5 C18"),
     "C15": dict(
